@@ -513,8 +513,9 @@ impl Object for Dyn {
     }
 }
 
-thread_local! {
-    static POOL: Vec<Value> = vec![
+static POOL: std::sync::OnceLock<Vec<Value>> = std::sync::OnceLock::new();
+fn make_pool() -> Vec<Value> {
+    vec![
         Value::from_safe_string("<b>&'\"x</b>".to_string()),          // 0 safe string
         Value::UNDEFINED,                                              // 1 undefined
         Value::from_object(Dyn(2)),                                    // 2 dynamic (plain) object
@@ -525,10 +526,10 @@ thread_local! {
         Value::from_object(Dyn(7)),                                    // 7 another object
         Value::from_safe_string("a long safe string, more than twenty-two bytes <&>".to_string()), // 8
         Value::from(vec![Value::from_safe_string("<s>".into()), Value::UNDEFINED]), // 9 list holding special values
-    ];
+    ]
 }
 fn pool(k: u32) -> Value {
-    POOL.with(|p| p.get(k as usize).cloned().unwrap_or(Value::UNDEFINED))
+    POOL.get_or_init(make_pool).get(k as usize).cloned().unwrap_or(Value::UNDEFINED)
 }
 
 /// A field holding the pooled template value `k`.
@@ -775,6 +776,157 @@ fn shape(v: &Value, o: &mut Vec<String>) {
     }
 }
 
+// ------------------------------------------------------------------------------------------
+// re-entrancy programs (tid 200): what a Serialize impl may do while an outer conversion runs
+// ------------------------------------------------------------------------------------------
+// node tokens: 0 z int | 1 k embedded value | 2 probe serializing_for_value() | 3 n seq | 4 n tuple | 5 n map |
+//  6 n struct | 7 x newtype variant | 8 n tuple variant | 9 n struct variant | 10 x some | 11 x nested conversion,
+//  result embedded | 12 x nested conversion, result dropped | 13 x nested conversion under catch_unwind |
+//  14 x conversion on another thread, result embedded | 15 fail (serde error) | 16 panic
+enum Node {
+    Int(i64),
+    EmbV(u32),
+    Probe,
+    Seq(Vec<Node>),
+    Tuple(Vec<Node>),
+    Map(Vec<Node>),
+    Struct(Vec<Node>),
+    NVar(Box<Node>),
+    TVar(Vec<Node>),
+    SVar(Vec<Node>),
+    Some(Box<Node>),
+    Nested(Box<Node>),
+    NestedDrop(Box<Node>),
+    NestedCatch(Box<Node>),
+    Thread(Box<Node>),
+    Fail,
+    Panic,
+}
+const FIELD_NAMES: [&str; 10] = ["f0", "f1", "f2", "f3", "f4", "f5", "f6", "f7", "f8", "f9"];
+
+fn parse_node(t: &mut Toks) -> Node {
+    fn many(t: &mut Toks) -> Vec<Node> {
+        let n = (t.int() as usize).min(10);
+        (0..n).map(|_| parse_node(t)).collect()
+    }
+    match t.int() {
+        0 => Node::Int(t.int() as i64),
+        1 => Node::EmbV(t.int() as u32),
+        2 => Node::Probe,
+        3 => Node::Seq(many(t)),
+        4 => Node::Tuple(many(t)),
+        5 => Node::Map(many(t)),
+        6 => Node::Struct(many(t)),
+        7 => Node::NVar(Box::new(parse_node(t))),
+        8 => Node::TVar(many(t)),
+        9 => Node::SVar(many(t)),
+        10 => Node::Some(Box::new(parse_node(t))),
+        11 => Node::Nested(Box::new(parse_node(t))),
+        12 => Node::NestedDrop(Box::new(parse_node(t))),
+        13 => Node::NestedCatch(Box::new(parse_node(t))),
+        14 => Node::Thread(Box::new(parse_node(t))),
+        15 => Node::Fail,
+        _ => Node::Panic,
+    }
+}
+
+impl Serialize for Node {
+    fn serialize<S: Serializer>(&self, s: S) -> Result<S::Ok, S::Error> {
+        use ser::{SerializeMap, SerializeSeq, SerializeStruct, SerializeStructVariant, SerializeTuple, SerializeTupleVariant};
+        match self {
+            Node::Int(z) => s.serialize_i64(*z),
+            Node::EmbV(k) => pool(*k).serialize(s),
+            Node::Probe => s.serialize_bool(minijinja::value::serializing_for_value()),
+            Node::Seq(l) => {
+                let mut c = s.serialize_seq(Some(l.len()))?;
+                for x in l {
+                    c.serialize_element(x)?;
+                }
+                c.end()
+            }
+            Node::Tuple(l) => {
+                let mut c = s.serialize_tuple(l.len())?;
+                for x in l {
+                    c.serialize_element(x)?;
+                }
+                c.end()
+            }
+            Node::Map(l) => {
+                let mut c = s.serialize_map(None)?;
+                for (i, x) in l.iter().enumerate() {
+                    c.serialize_entry(FIELD_NAMES[i], x)?;
+                }
+                c.end()
+            }
+            Node::Struct(l) => {
+                let mut c = s.serialize_struct("S", l.len())?;
+                for (i, x) in l.iter().enumerate() {
+                    c.serialize_field(FIELD_NAMES[i], x)?;
+                }
+                c.end()
+            }
+            Node::NVar(x) => s.serialize_newtype_variant("E", 0, "V", &**x),
+            Node::TVar(l) => {
+                let mut c = s.serialize_tuple_variant("E", 0, "V", l.len())?;
+                for x in l {
+                    c.serialize_field(x)?;
+                }
+                c.end()
+            }
+            Node::SVar(l) => {
+                let mut c = s.serialize_struct_variant("E", 0, "V", l.len())?;
+                for (i, x) in l.iter().enumerate() {
+                    c.serialize_field(FIELD_NAMES[i], x)?;
+                }
+                c.end()
+            }
+            Node::Some(x) => s.serialize_some(&**x),
+            // e.g. a `#[serde(serialize_with)]` helper that pre-converts a field into a template value
+            Node::Nested(x) => Value::from(Serde(&**x)).serialize(s),
+            Node::NestedDrop(x) => {
+                let _ = Value::from(Serde(&**x));
+                s.serialize_unit()
+            }
+            Node::NestedCatch(x) => {
+                match std::panic::catch_unwind(std::panic::AssertUnwindSafe(|| Value::from(Serde(&**x)))) {
+                    Ok(v) => v.serialize(s),
+                    Err(_) => s.serialize_unit(),
+                }
+            }
+            Node::Thread(x) => {
+                let r = std::thread::scope(|sc| sc.spawn(|| Value::from(Serde(&**x))).join());
+                match r {
+                    Ok(v) => v.serialize(s),
+                    Err(_) => s.serialize_unit(),
+                }
+            }
+            Node::Fail => Err(<S::Error as ser::Error>::custom("boom")),
+            Node::Panic => panic!("boom"),
+        }
+    }
+}
+
+/// `ntop node..`: that many conversions one after the other on this thread.
+/// Output: `0 ntop (0 shape f | 2 f)* f` with f = serializing_for_value() observed outside a conversion.
+fn run_prog(toks: &[String], start: usize) -> Vec<String> {
+    let mut t = Toks { v: toks, i: start };
+    let ntop = (t.int() as usize).min(8);
+    let nodes: Vec<Node> = (0..ntop).map(|_| parse_node(&mut t)).collect();
+    let mut o = vec!["0".to_string(), ntop.to_string()];
+    for n in &nodes {
+        match std::panic::catch_unwind(std::panic::AssertUnwindSafe(|| Value::from(Serde(n)))) {
+            Ok(v) => {
+                o.push("0".into());
+                shape(&v, &mut o);
+            }
+            Err(_) => o.push("2".into()),
+        }
+        o.push((minijinja::value::serializing_for_value() as u8).to_string());
+    }
+    o.push((minijinja::value::serializing_for_value() as u8).to_string());
+    o
+}
+
 fn push_result(o: &mut Vec<String>, r: Result<String, minijinja::Error>) {
     match r {
         Ok(s) => {
@@ -871,6 +1023,9 @@ fn main() {
         let l = c.usize();
         let start = c.i + l;
         let toks = c.v;
+        if tid == 200 {
+            return run_prog(toks, start);
+        }
         dispatch!(tid, &env, toks, start;
             0 => Prims, 1 => Floats, 2 => Opts, 3 => (), 4 => UnitS, 5 => NewI, 6 => NewS, 7 => TupS,
             8 => EmptyS, 9 => EmptyT, 10 => Color, 11 => Shape, 12 => Deep, 13 => Outer, 14 => Wide,
